@@ -55,7 +55,172 @@ def check(model: Model, rep: Report, tier: str):
     with rep.isolated():
         share_rule(rep, model, _k4, "C03.H4", "classes used as dictionary keys while copying are hashable and their generated equality compares all "
                    "instance-distinguishing state (= C05.K4): otherwise reading `operations` before copying / nesting changes the result")
+    with rep.isolated():
+        h5(model, rep, cg)
+    with rep.isolated():
+        h6(model, rep, cg)
     rep.analysed["call graph"] = dict(cg.res.stats)
+
+
+# ---------------------------------------------------------------------------------------------
+def unique_identifier(model: Model, C: ClassInfo) -> Tuple[bool, str]:
+    """Does every instance of dataclass ``C`` carry a compared field fed by a class counter that __post_init__ advances
+    unconditionally (so that two instances are never equal)?"""
+    why = "no compared field is fed by an instance counter"
+    for n, fi in C.all_fields().items():
+        if not (fi.compare and fi.default_factory is not None and isinstance(fi.default_factory, ast.Lambda)):
+            continue
+        body = fi.default_factory.body
+        if not (isinstance(body, ast.Attribute) and isinstance(body.value, ast.Name)):
+            continue
+        cname, counter = body.value.id, body.attr
+        if model.maybe_cls(cname) is None:
+            continue
+        post = None
+        for k in C.mro():
+            if "__post_init__" in k.methods:
+                post = k.methods["__post_init__"][0]
+                break
+        if post is None:
+            why = "no __post_init__ increments the counter"
+            continue
+        incs = [st for st in post.node.body if isinstance(st, ast.AugAssign) and isinstance(st.op, ast.Add)
+                and ast.unparse(st.target) == f"{cname}.{counter}" and isinstance(st.value, ast.Constant)
+                and isinstance(st.value.value, int) and st.value.value > 0]
+        if len(incs) == 1:
+            return True, n
+        why = f"{post.qualname} does not increment {cname}.{counter} unconditionally"
+    return False, why
+
+
+def h6(model: Model, rep: Report, cg: CallGraph, keep=None, rule: str = "C03.H6"):
+    rep.rule(rule, "a container handed out by a getter and then changed in place by the caller (append / extend / += / item assignment ...) is a fresh object: "
+                   "the getter builds a new container on every call and is not memoised -- otherwise a read-only accessor rewrites the provider's state "
+                   "(decided where the caller is itself a getter, or the provider is memoised)")
+    from ..alias import mutated_handouts
+    hs = mutated_handouts(model, cg)
+    n = 0
+    for h in hs:
+        if keep is not None and not keep(h):
+            continue
+        n += 1
+        bad = [(g, why) for g, ok, why in h.providers if not ok]
+        observer_site = h.site.kind == "property" or any("cached_property" in d for d in h.site.decorators)
+        memoised = [g for g, ok, why in h.providers if any(d.split(".")[-1] in ("lru_cache", "cache", "cached_property") for d in g.decorators)]
+        construct = f"{h.site.qualname}[{h.name} <- {ast.unparse(h.bind)[:50]}]"
+        if bad and not (observer_site or memoised):
+            rep.ok(rule, construct, h.loc, found=f"changes stored state of the provider from a non-observer: {bad[0][1]}", required="fresh hand-out where an observer changes it",
+                   note="a state change through a getter inside a mutator is not an observation; other rules decide its effect")
+            continue
+        rep.check(not bad, rule, construct, h.loc, found="; ".join(f"{g.qualname}: {why}" for g, ok, why in h.providers) if not bad else bad[0][1],
+                  required="every provider returns a new container on every call",
+                  what=f"{h.site.qualname} changes in place ({norm_stmt(_enclosing_stmt(h.site.node, h.mutation))[:70]}) a container that {bad[0][0].qualname if bad else '?'} "
+                       f"hands out without copying: the provider's state grows with every read and later readers see the additions" if bad else "",
+                  detail=f"handout:{h.site.name}:{h.name}")
+    rep.analysed[f"{rule} in-place changes of handed-out containers"] = n
+
+
+PRIMITIVES = {"int", "float", "str", "bool", "bytes", "complex", "None"}
+
+
+def h5(model: Model, rep: Report, cg: CallGraph):
+    rep.rule("C03.H5", "the key of every keyed memo (lru_cache / cache) separates receivers whose results can differ: each class in the key compares "
+                       "by identity, or carries a compared counter-fed identifier, or compares (recursively through its compared fields) every "
+                       "field the memoised computation reads on it")
+    from .c05 import eq_kind, hash_kind
+    memos = [f for f in memo_functions(model) if not any("cached_property" in d for d in f.decorators)]
+    rep.floor("keyed memo functions", len(memos), 2)
+    for M in memos:
+        reach = cg.reachable([M])
+        # certain reads: attribute loads whose static receiver class is known
+        reads: Dict[ClassInfo, Set[str]] = {}
+        unknown: Set[str] = set()
+        for f in reach:
+            env = cg.env(f)
+            for n in ast.walk(f.node):
+                if isinstance(n, ast.Attribute) and isinstance(n.ctx, ast.Load):
+                    t = env.type_of(n.value)
+                    if t is not None and t.cls is not None and not t.is_class_obj:
+                        reads.setdefault(t.cls, set()).add(n.attr)
+                    elif t is None:
+                        unknown.add(n.attr)
+
+        def reads_on(X: ClassInfo) -> Set[str]:
+            out: Set[str] = set()
+            for c, names in reads.items():
+                if c.is_subclass_of(X) or X.is_subclass_of(c):
+                    out |= names
+            return out
+
+        key_classes: List[Tuple[ClassInfo, str]] = []
+        if M.cls is not None:
+            for X in [M.cls] + model.subclasses(M.cls):
+                if X.resolve(M.name) is M:
+                    key_classes.append((X, "self"))
+        for prm in M.params:
+            if prm.arg == M.self_name:
+                continue
+            t = cg.res.ann(prm.annotation, M.module)
+            if t is not None and t.cls is not None:
+                for X in [t.cls] + model.subclasses(t.cls):
+                    key_classes.append((X, prm.arg))
+            elif prm.annotation is not None and ast.unparse(prm.annotation) not in PRIMITIVES:
+                raise AnalysisError(f"C03.H5: key parameter {prm.arg}: {ast.unparse(prm.annotation)} of {M.qualname} is not understood")
+
+        for X0, via in key_classes:
+            trail: List[str] = []
+            verdict: List[Tuple[bool, str]] = []
+            seen: Set[ClassInfo] = set()
+
+            def decide(X: ClassInfo, path: str) -> Optional[str]:
+                """None when the key separates instances of X as far as M reads them; else the uncovered read."""
+                if X in seen:
+                    return None
+                seen.add(X)
+                if X.is_subclass_of("Enum") or X.is_subclass_of("IntEnum") or X.is_subclass_of("Flag"):
+                    return None
+                ek = eq_kind(X)
+                if ek == "identity":
+                    trail.append(f"{path}:{X.name} by identity")
+                    return None
+                if ek == "explicit":
+                    raise AnalysisError(f"C03.H5: {X.name} (in the key of {M.qualname} through {path}) defines its own __eq__; which fields it compares is not derived")
+                has_id, idw = unique_identifier(model, X)
+                if has_id:
+                    trail.append(f"{path}:{X.name} unique by '{idw}'")
+                    return None
+                flds = X.all_fields()
+                rd = reads_on(X)
+                for a in sorted(rd):
+                    fi = flds.get(a)
+                    if fi is None or fi.is_classvar:
+                        continue
+                    if not fi.compare:
+                        return f"{X.name}.{a} is read (through {path}) but excluded from comparison, and {X.name} has no compared unique identifier ({idw})"
+                for a in sorted(rd):
+                    fi = flds.get(a)
+                    if fi is None or fi.is_classvar or not fi.compare:
+                        continue
+                    t = cg.res.ann(fi.annotation, fi.owner.module)
+                    while t is not None and t.cls is None and t.elem is not None:
+                        t = t.elem
+                    if t is None or t.cls is None:
+                        continue
+                    subs = [t.cls] + model.subclasses(t.cls)
+                    for Y in subs:
+                        r = decide(Y, f"{path}.{a}")
+                        if r is not None:
+                            return r
+                trail.append(f"{path}:{X.name} compares what is read")
+                return None
+
+            bad = decide(X0, via)
+            rep.check(bad is None, "C03.H5", f"{M.qualname}[key {via}: {X0.name}]", M.loc, found=bad or "; ".join(trail[:6]),
+                      required="instances with different results never share a cache key",
+                      what=f"two different {X0.name} objects compare and hash equal, so {M.qualname} returns the value memoised for the other one: {bad}",
+                      detail=f"key:{via}:{X0.name}")
+    # hash present at all (an unhashable key raises at the first call)
+    rep.analysed["C03.H5 memo functions"] = [m.qualname for m in memos]
 
 
 # ---------------------------------------------------------------------------------------------
